@@ -825,7 +825,8 @@ func (rn *runner) random(kind string, stream string) error {
 	return rn.session(c, bucket, g.next)
 }
 
-// the minimal scenarios of the known defects; always run first
+// the minimal scenarios of the defects found so far (repaired ones included: they must stay
+// repaired, a recurrence is reported as a violation); always run first
 func directed() []Case {
 	nr := Opts{Buf: 16}
 	ap := func(s string) Op { return Op{K: "append", Bs: hex.EncodeToString([]byte(s))} }
@@ -849,6 +850,10 @@ func directed() []Case {
 		{Kind: "multi", FS: 4, MaxOpen: 1000, O: nr, Ops: []Op{ap("0123456789"), so(2), sz, rd(8, 0)}},
 		{Kind: "multi", FS: 4, MaxOpen: 1000, O: nr, Ops: []Op{ap("0123456789"), so(2), sz, cl, re(nr), sz}},
 		{Kind: "multi", FS: 4, MaxOpen: 1000, O: nr, Ops: []Op{ap("0123456789"), fl, so(9), ap("x"), rd(2, 8), cl, re(nr), sz}},
+		// the stale chunk files are reached by a read that starts beyond, or runs past, the current chunk
+		{Kind: "multi", FS: 4, MaxOpen: 1000, O: nr, Ops: []Op{ap("0123456789"), so(2), rd(2, 4)}},
+		{Kind: "multi", FS: 4, MaxOpen: 1000, O: nr, Ops: []Op{ap("0123456789"), so(2), ap("xy"), rd(8, 0)}},
+		{Kind: "multi", FS: 4, Prealloc: 1, MaxOpen: 1000, O: nr, Ops: []Op{ap("0123456789"), so(6), ap("xy"), rd(8, 4)}},
 	}
 }
 
